@@ -454,8 +454,15 @@ int32_t jls_core_wr_end(struct jls_core_s * self) {
 int32_t jls_core_rd_chunk(struct jls_core_s * self) {
     while (1) {
         self->chunk_cur.offset = jls_raw_chunk_tell(self->raw);
-        int32_t rc = jls_raw_rd(self->raw, &self->chunk_cur.hdr, (uint32_t) self->buf->alloc_size, self->buf->start);
+        uint32_t payload_length_max = (self->buf->alloc_size > UINT32_MAX) ? UINT32_MAX : (uint32_t) self->buf->alloc_size;
+        int32_t rc = jls_raw_rd(self->raw, &self->chunk_cur.hdr, payload_length_max, self->buf->start);
         if (rc == JLS_ERROR_TOO_BIG) {
+            struct jls_bkf_s * backend = jls_raw_backend(self->raw);
+            if ((NULL != backend)
+                    && (((int64_t) self->chunk_cur.hdr.payload_length) > (backend->fend - self->chunk_cur.offset))) {
+                // the payload cannot lie within the file: do not allocate for it (and never retry forever)
+                return JLS_ERROR_EMPTY;
+            }
             // the buffer also receives the pad bytes (up to 7) and the 4-byte payload CRC
             ROE(jls_buf_realloc(self->buf, ((size_t) self->chunk_cur.hdr.payload_length) + 16));
         } else if (rc == 0) {
